@@ -2,6 +2,11 @@
 (* Exhaustive exploration of Finalization.tla: every tree with <= MaxRound    *)
 (* rounds x <= PerRound blocks per round, every block notarized or only known *)
 (* as a parent, every growth order, finalizeRound of every round in between.  *)
+(* Configs: _quick/_short/_thorough = 2 blocks per round (2-way forks), 4-5    *)
+(* rounds; _wide (3 rounds), _wide_u1 (3 rounds, one block known only as a     *)
+(* parent), _wide4 (4 rounds) = 3 blocks per round: 3-way forks whose branches *)
+(* merge pairwise at different depths, where a walk that follows only some of  *)
+(* the branches of a level arrives at a block that is not a common ancestor.   *)
 EXTENDS Finalization, TLC
 
 Table == <<<<"b1_1", "b1_2", "b1_3">>, <<"b2_1", "b2_2", "b2_3">>, <<"b3_1", "b3_2", "b3_3">>,
